@@ -1,4 +1,5 @@
 import Irismod.Props.C12_Farm
+import Irismod.Proofs.FarmWitness
 open Irismod Irismod.Sdk Irismod.Farm Irismod.FarmGenesis Irismod.Props.C12.Farm Irismod.Proofs.Farm Irismod.Proofs.FarmGenesis
 #print axioms farm_wf_init
 #print axioms farm_wf_step
@@ -7,6 +8,8 @@ open Irismod Irismod.Sdk Irismod.Farm Irismod.FarmGenesis Irismod.Props.C12.Farm
 #print axioms farm_export_validates
 #print axioms farm_import_succeeds
 #print axioms farm_queries_preserved
+#print axioms farm_escrow_preserved
+#print axioms farm_cp_inv_roundTrip
 #print axioms farm_next_pool_same_id
 #print axioms farm_expired_preserved
 #print axioms farm_pending_preserved
@@ -40,4 +43,15 @@ def showq (q : List (Int × PoolId)) : List String := Irismod.Line.sortStrings (
    | .ok s' => Spec.C05.sameObserved h1 s' && decide (s'.seq = 3) && decide ((exportGenesis s').pools.map (·.1) = ["farm-1", "farm-2", "farm-3"]) &&
                Spec.C12Farm.samePending h1 s' && decide (poolIdOf (s'.seq + 1) = "farm-4") &&
                (showq s'.queue == showq h1.queue)
+   | .error _ => false)}"
+
+-- non-vacuity for the escrow infos: the community-pool history w3 cut after the two submissions and one block end has
+-- two escrow infos (proposal 1 voting, proposal 2 in its deposit period); they are exported in ascending id order,
+-- re-imported, and the export is a fixpoint
+#eval s!"nonvacuous {
+  let s := run w3Genesis (w3Ops.take 3 ++ [.endBlocks 1])
+  decide ((exportGenesis s).escrow.map (·.1) = [1, 2]) &&
+  (match importGenesis s (exportGenesis s) with
+   | .ok s' => Spec.C05.sameObserved s s' && Spec.C05.sameCp s s' && decide ((exportGenesis s').escrow.map (·.1) = [1, 2]) &&
+               ((exportGenesis s').escrow.map (·.2.applied) == (exportGenesis s).escrow.map (·.2.applied))
    | .error _ => false)}"
